@@ -190,7 +190,7 @@ def worker_main(a):
         if time.monotonic() > deadline:
             ctx.truncated = True
             break
-        run_one_case(mod, ctx, i, wall_s=getattr(mod, 'CASE_WALL', {}).get(ctx.tier, 30))
+        run_one_case(mod, ctx, i, wall_s=getattr(mod, 'CASE_WALL', {}).get(ctx.tier, 60))
     if hasattr(mod, "finish"):
         try:
             mod.finish(ctx)
@@ -367,6 +367,9 @@ def decide(a, mod, results, dead, t0, nsh):
     if m["cases_run"] and rejected > 0.2 * m["cases_run"]:
         inconclusive_reasons.append(f"{rejected}/{m['cases_run']} generated declarations were rejected by the library or failed to build "
                                     f"(generator drift): " + ", ".join(f"{k}={v}" for k, v in m["counters"].items() if k.startswith("declaration_rejected")))
+    if m["inconclusive"].get("wallclock"):
+        # a case cut by the wall-clock watchdog was not decided: never folded into 'held'
+        inconclusive_reasons.append(f"{m['inconclusive']['wallclock']} case(s) were cut by the per-case wall-clock watchdog and remain undecided")
     if hasattr(mod, "conclusive"):
         why = mod.conclusive(m, a.tier)
         if why:
